@@ -26,6 +26,7 @@ fn dispatch(kind: &str, args: &[&str]) -> String {
     match kind {
         "queue" => k_queue::run(args),
         "errtab" => k_errtab::run(args),
+        "dumptab" => k_errtab::dump(args),
         "dev" => k_dev::run(args),
         "devtree" => k_dev::dump_tree(),
         "mm" => k_mm::run(args),
